@@ -11,7 +11,7 @@ else
   git -C "$WT" apply "$PATCH" || { git -C /repo worktree remove --force "$WT"; echo "PATCH DOES NOT APPLY"; exit 3; }
 fi
 ( cd "$WT" && go build ./... && go vet -tags verif . >/dev/null 2>&1; go test -vet=off -count=1 . 2>&1 | tail -1 )
-( cd /verif && VERIF_REPO="$WT" ./check "$PROP" --tier "$TIER" 2>&1 | grep -v '^KNOWN-FINDING' | tail -6 )
+( cd /verif && VERIF_REPO="$WT" ./check "$PROP" --tier "$TIER" 2>&1 | grep -v '^KNOWN-FINDING' | tail -14 )
 rc=$?
 git -C /repo worktree remove --force "$WT"
 git -C /repo worktree prune
